@@ -50,11 +50,9 @@ static char tmpname[4096];
 static int tmpfd = -1;
 #define FILE_BASE 7   /* representation bytes start at this file offset */
 
-static void tmp_cleanup(void) { if (tmpfd >= 0) { close(tmpfd); unlink(tmpname); } }
-
 /* keep the output of the cases before a sanitizer report / abort, so that the first
- * line without output is the failing one; remove the temp file */
-static void on_death(void) { fflush(stdout); if (tmpfd >= 0) unlink(tmpname); }
+ * line without output is the failing one */
+static void on_death(void) { fflush(stdout); }
 static void on_abort(int sig) { on_death(); signal(sig, SIG_DFL); raise(sig); }
 
 static int absent(const char *t) { return t[0] == '~' && t[1] == 0; }
@@ -176,7 +174,10 @@ int main(void) {
     snprintf(tmpname, sizeof(tmpname), "%s/ltv-range-XXXXXX", (td && *td) ? td : "/tmp");
     tmpfd = mkstemp(tmpname);
     if (tmpfd < 0) { perror("mkstemp"); return 2; }
-    atexit(tmp_cleanup);
+    /* the file is unlinked at once (nothing is left behind whatever happens);
+     * file chunks "by name" refer to it through /proc/self/fd */
+    unlink(tmpname);
+    snprintf(tmpname, sizeof(tmpname), "/proc/self/fd/%d", tmpfd);
   #ifdef __SANITIZE_ADDRESS__
     __sanitizer_set_death_callback(on_death);
   #endif
